@@ -176,14 +176,14 @@ def generate(tier, rng):
                 cols = [rand_col(rng, kind) for _ in range(w)]
                 yield {'kind': 'sys-%s' % kind, 'pwm': norm(cols), 'bin': b, 'eps': eps,
                        'dtype': 'f32' if (w + len(str(kind))) % 2 else 'f64'}
-    n = 260 if quick else 2200
+    n = 260 if quick else 1500
     for _ in range(n):
         w = rng.choice([1, 1, 2, 2, 3, 3, 4, 5, 6, 7])
         yield rand_case(rng, w, 1500 if rng.random() < 0.9 else 8000)
-    for _ in range(60 if quick else 500):
+    for _ in range(60 if quick else 300):
         yield raw_case(rng, rng.choice([1, 1, 2, 3, 4, 5, 6, 7] + ([] if quick else [9, 12])))
     # wide motifs
-    for _ in range(25 if quick else 400):
+    for _ in range(25 if quick else 250):
         w = rng.randint(8, 30) if not quick else rng.choice([8, 10, 14, 20, 30])
         yield rand_case(rng, w, 2500 if quick else rng.choice([2500, 6000, 12000]))
 
